@@ -867,8 +867,9 @@ impl Printable for Stmt {
 				);
 				if binds.len() == 1 {
 					let bind = &binds[0];
-					format_comments(&bind.before_trivia, CommentLocation::AboveItem, out);
-					p!(out, str("local ") {bind.value});
+					p!(out, str("local "));
+					format_comments(&bind.before_trivia, CommentLocation::BeforeInline, out);
+					p!(out, { bind.value });
 					format_comments(&bind.inline_trivia, CommentLocation::ItemInline, out);
 					format_comments(&end_comments.trivia, CommentLocation::ItemInline, out);
 				} else {
